@@ -118,6 +118,26 @@ pub fn scenario_a(idx: usize, seed: u64) -> ScenarioResult {
             }
             high.push((pid, addrs));
         }
+        // one more High peer (index n_high) whose table entry is EDITED while the node runs: removed or
+        // demoted to Allowed for a while, then re-inserted as High with the same addresses.  While
+        // it is out of the table (or not High) it must not be dialed; rotation and the back-off lower
+        // bound continue across the edit (the dial state of a peer is kept per identity); the
+        // keeps-dialing upper bounds are not applied to it.
+        let edited: Option<usize> = if rng.gen_bool(0.35) {
+            let pid = world::peer_id_of_key(&w.gen_key());
+            let na = rng.gen_range(1..=3usize);
+            let mut addrs = Vec::new();
+            for _ in 0..na {
+                let a = bh_addr(idx, next_addr);
+                next_addr += 1;
+                addr_owner.insert(a, n_high);
+                addrs.push(a);
+            }
+            high.push((pid, addrs));
+            Some(n_high)
+        } else {
+            None
+        };
         let mut forbidden: HashMap<SocketAddr, &'static str> = HashMap::new();
         let kp = n.net.known_peers();
         for (pid, addrs) in &high {
@@ -138,6 +158,28 @@ pub fn scenario_a(idx: usize, seed: u64) -> ScenarioResult {
         forbidden.insert(by2.addr, "a peer with Never affinity");
         kp.insert(PeerInfo { peer_id: world::peer_id_of_key(&w.gen_key()), affinity: PeerAffinity::High, address: vec![] });
         let inserted_at = w.now();
+        let out_windows: std::sync::Arc<std::sync::Mutex<Vec<(u64, u64)>>> = Default::default();
+        let edit_task = edited.map(|e| {
+            let (net, log, wins) = (n.net.clone(), w.log.clone(), out_windows.clone());
+            let (pid, addrs) = high[e].clone();
+            let mut r3 = StdRng::seed_from_u64(seed ^ 0xed17);
+            tokio::spawn(async move {
+                loop {
+                    tokio::time::sleep(Duration::from_millis(r3.gen_range(i_ms..6 * i_ms + 4_000))).await;
+                    let t_out = log.now();
+                    if r3.gen_bool(0.5) {
+                        let _ = net.known_peers().remove(&pid);
+                    } else {
+                        net.known_peers().insert(PeerInfo { peer_id: pid, affinity: PeerAffinity::Allowed, address: addrs.iter().map(|a| (*a).into()).collect() });
+                    }
+                    wins.lock().unwrap().push((t_out, u64::MAX));
+                    // out of the table across at least one connectivity check
+                    tokio::time::sleep(Duration::from_millis(r3.gen_range(i_ms + 1_100..4 * i_ms + 3_000))).await;
+                    net.known_peers().insert(PeerInfo { peer_id: pid, affinity: PeerAffinity::High, address: addrs.iter().map(|a| (*a).into()).collect() });
+                    wins.lock().unwrap().last_mut().unwrap().1 = log.now();
+                }
+            })
+        });
 
         // connections the application dials itself also count as "being established": with a small
         // maximum an explicit dial to a silent address occupies a slot for the connect timeout
@@ -161,6 +203,10 @@ pub fn scenario_a(idx: usize, seed: u64) -> ScenarioResult {
         if let Some(t) = explicit_task {
             t.abort();
         }
+        if let Some(t) = edit_task {
+            t.abort();
+        }
+        let out_windows: Vec<(u64, u64)> = out_windows.lock().unwrap().clone();
 
         let tap = w.fabric.take_tap();
         let mut seen = HashMap::new();
@@ -190,6 +236,15 @@ pub fn scenario_a(idx: usize, seed: u64) -> ScenarioResult {
         let mut rotation_checked = 0u64;
         for (h, atts) in &per_peer {
             let addrs = &high[*h].1;
+            let is_edited = edited == Some(*h);
+            if is_edited {
+                for a in atts {
+                    if let Some((t0, t1)) = out_windows.iter().find(|(t0, t1)| a.t > *t0 + 5_000 && a.t < *t1) {
+                        problems.push(format!("peer #{h} was dialed at t={} us although its table entry had been removed or demoted at {t0} us (re-inserted as High at {t1} us)", a.t));
+                        break;
+                    }
+                }
+            }
             for (k, a) in atts.iter().enumerate() {
                 // rotation: k-th consecutive failed attempt goes to address k mod n
                 let want = addrs[k % addrs.len()];
@@ -212,7 +267,7 @@ pub fn scenario_a(idx: usize, seed: u64) -> ScenarioResult {
                         ));
                         break;
                     }
-                    if cap >= 100 {
+                    if cap >= 100 && !is_edited {
                         // keeps dialing: failure noticed <= ct + (I+J) after the attempt, next
                         // tick after the backoff <= (I+J) later
                         let upper = ct + (iv + jit) + lower + (iv + jit) + 50_000;
@@ -226,7 +281,7 @@ pub fn scenario_a(idx: usize, seed: u64) -> ScenarioResult {
                     }
                 }
             }
-            if cap >= 100 {
+            if cap >= 100 && !is_edited {
                 // first attempt within one interval (+jitter) of becoming eligible
                 if let Some(first) = atts.first() {
                     if first.t > inserted_at + iv + jit + 50_000 {
@@ -306,6 +361,7 @@ pub fn scenario_a(idx: usize, seed: u64) -> ScenarioResult {
             .count("cap_with_explicit_dials_scenarios", explicit as u64)
             .count("cap_start_checks", explicit_blocked_checks)
             .count("scenarios_with_non_high_connections", (!company.is_empty()) as u64)
+            .count("table_edits_of_a_high_peer", out_windows.len() as u64)
     })
 }
 
@@ -594,7 +650,7 @@ pub fn run(ctx: &Ctx) -> i32 {
         tier,
         seed: ctx.seed,
         level: "exploration",
-        rule: "two scenario classes on virtual time (2-30 min spans). A: a node whose High peers (1-6, 1-4 addresses each) are all black-holed plus never-dial entries (itself, Allowed, Never, empty address list); dial attempts are read off the fabric tap (first Initial per source connection id) and checked for who/rotation (k-th consecutive failure -> address k mod n)/spacing lower bound min(max,k*step)/in-flight cap/keeps-dialing upper bounds. B: reachable High peers; bounded success after insertion, re-dial after loss within interval+1s, recovery after k failures within min(max,k*step)+2 intervals+connect, no dial while connected. distinct by (class, interval, cap, table shape / which clauses were exercised) In both classes the node may hold 'company': established connections to parties outside its High table (strangers that dialed in, strangers it dialed explicitly, Allowed entries), which must change nothing.".into(),
+        rule: "two scenario classes on virtual time (2-30 min spans). A: a node whose High peers (1-6, 1-4 addresses each) are all black-holed plus never-dial entries (itself, Allowed, Never, empty address list); dial attempts are read off the fabric tap (first Initial per source connection id) and checked for who/rotation (k-th consecutive failure -> address k mod n)/spacing lower bound min(max,k*step)/in-flight cap/keeps-dialing upper bounds. B: reachable High peers; bounded success after insertion, re-dial after loss within interval+1s, recovery after k failures within min(max,k*step)+2 intervals+connect, no dial while connected. distinct by (class, interval, cap, table shape / which clauses were exercised) In both classes the node may hold 'company': established connections to parties outside its High table (strangers that dialed in, strangers it dialed explicitly, Allowed entries), which must change nothing. In 35% of the class-A scenarios one more High peer has its table entry edited while the node runs (removed or demoted to Allowed for longer than a connectivity check, then re-inserted as High): no dial while it is out, rotation and the back-off lower bound continue across the edit, the keeps-dialing upper bounds are not applied to it.".into(),
         assumptions: vec![
             "liveness clauses decided as the bounded-progress bounds the statement gives, in virtual time".into(),
             "tick jitter (<1 s, random) is not controlled; bounds include it".into(),
